@@ -99,6 +99,14 @@ def run(chk):
             trees.append(("smember", ("data", n), m))
             trees.append(("dmember", ("data", n), ("str", m, '"')))
             trees.append(("smember", ("dmember", ("data", "z"), ("data", n)), m))
+    # a scope variable at every position of array / object literals: after one and several adjacent holes, after spreads, as spread operand
+    sc0 = ("scope", 0)
+    H_ = ("hole",)
+    for fields in ([H_, H_, ("item", sc0)], [("item", ("int", 0)), H_, H_, H_, ("item", sc0), ("item", sc0)], [H_, ("item", sc0), H_, H_, ("item", sc0)],
+                   [("spread", ("data", "l")), H_, H_, ("item", sc0)], [H_, H_, ("spread", sc0)], [("item", sc0), H_, H_]):
+        trees.append(("arr", fields))
+        trees.append(("dmember", ("arr", fields), ("int", len(fields) - 1)))
+    trees.append(("obj", [("spread", ("data", "o")), ("named", "p", False, sc0), ("spread", sc0), ("named", "q", False, sc0)]))
     rng = chk.rng.fork("c03-trees")
     for i in range(600 if quick else 20000):
         trees.append(eg.rand_tree(rng, 3 + (i % 3), 1))
@@ -242,7 +250,53 @@ def run(chk):
                       gen_expr=core.unesc(real[i].split("\t")[4]), gen_stmts=core.unesc(real[i].split("\t")[3]))
     chk.bump("oracle:v8-evaluations", len(meta))
     chk.bump("oracle:v8-mismatches", nbad)
+    template_stream(chk, [t for (t, s_, m) in cases if m == "min" and has_scope(t)][:: (4 if quick else 1)], E[:2])
     literal_stream(chk, runtime)
+
+
+def has_scope(t):
+    return isinstance(t, (tuple, list)) and ((len(t) > 0 and t[0] == "scope") or any(has_scope(x) for x in t))
+
+
+def template_stream(chk, trees, E):
+    """end to end, through the template parser's own scope conversion: the expression stands in an attribute of an element inside
+    `wx:for … wx:for-item="s0"`, the attribute value the real runtime receives is compared with JavaScript's value of the tree"""
+    from . import render
+    tpls = ['<block wx:for="{{ [sv] }}" wx:for-item="s0" wx:for-index="ix0"><v title="{{ %s }}"/></block>' % eg.src(tg_requote(t), "min") for t in trees]
+    tpls = [(t, s_) for t, s_ in zip(trees, tpls) if '"' not in s_.split('title="', 1)[1].rsplit('"/>', 1)[0]]
+    groups = render.compile_templates([[["p", s_]] for _, s_ in tpls])
+    reqs, meta = [], []
+    for (t, s_), g in zip(tpls, groups):
+        if "panic" in g or not isinstance(g.get("gen_groups"), str):
+            chk.violation("input", "compiler failed on an expression inside wx:for", template=s_)
+            continue
+        for ei, (D, s0) in enumerate(E):
+            D2 = dict(D); D2["sv"] = s0; D2["$$s0"] = s0
+            reqs.append({"op": "render", "gen_groups": g["gen_groups"], "path": "p", "steps": [{"create": D2}]})
+            reqs.append({"op": "evalref", "data": D2, "expr": "(function(s0,TOSTR,SPREADOBJ){return " + eg.js_ref(t) +
+                         "})(D[\"$$s0\"],function(a){return a==null?'':String(a)},function(a){return a==null?{}:a})"})
+            meta.append((t, s_, ei))
+    outs = core.run_node(reqs) if reqs else []
+    nbad = 0
+    for k, (t, s_, ei) in enumerate(meta):
+        g, r = outs[2 * k], outs[2 * k + 1]
+        chk.evaluations += 1
+        if "value" not in r:
+            continue                      # the reference throws: the generated code hoists / null-protects differently (covered above)
+        tree = (g.get("snapshots") or [{}])[0].get("tree") or []
+        got = (tree[0].get("attrs") or {}).get("title", {"$": "undefined"}) if tree and "error" not in g else {"error": g.get("error")}
+        if canon(got) != canon(r["value"]):
+            nbad += 1
+            if nbad <= 3:
+                chk.violation("input", f"inside wx:for, {s_} hands the element {json.dumps(got)[:120]}, JavaScript gives {json.dumps(r['value'])[:120]}",
+                              template=s_, env=ei, classification="template-level")
+    chk.bump("oracle:template-level-evaluations", len(meta))
+    chk.bump("oracle:template-level-mismatches", nbad)
+
+
+def tg_requote(t):
+    from . import tmplgen as tg
+    return tg.requote(t, "'")
 
 
 LITERALS = [
